@@ -65,6 +65,8 @@ pub struct TraceStats {
     pub err_fatal: u64,
     pub stale_attempt_errors: u64,
     pub head_attempts: u64,
+    pub dep_reoffers_without_blocker: u64,
+    pub validation_conflicts_without_dependency: u64,
     pub head_attempts_blocked: u64,
     pub signature: u64,
     pub threads_started: u64,
@@ -85,7 +87,7 @@ impl TraceStats {
             ben_reads_committed, storage_reads_committed, dep_added, dep_cleared_by_remove,
             dep_stale_edges, dep_commit_release, dep_key_barrier, dep_key_immediate, dep_handoffs,
             parks, park_timeouts, notifies, notifies_before_register, err_blocked, err_invalid,
-            err_fatal, stale_attempt_errors, head_attempts, head_attempts_blocked, threads_started, threads_ended
+            err_fatal, stale_attempt_errors, head_attempts, head_attempts_blocked, dep_reoffers_without_blocker, validation_conflicts_without_dependency, threads_started, threads_ended
         );
         for (k, n) in &o.abort_kinds {
             *self.abort_kinds.entry(k.clone()).or_insert(0) += n;
@@ -117,6 +119,8 @@ impl TraceStats {
             "committed_reads_from_base_state": self.storage_reads_committed,
             "dep_edges_added": self.dep_added,
             "dep_released_by_remove": self.dep_cleared_by_remove,
+            "dep_reoffers_without_blocker": self.dep_reoffers_without_blocker,
+            "validation_conflicts_without_dependency": self.validation_conflicts_without_dependency,
             "dep_stale_reverse_edges_ignored": self.dep_stale_edges,
             "dep_released_by_commit": self.dep_commit_release,
             "dep_commit_barriers_installed": self.dep_key_barrier,
@@ -174,6 +178,7 @@ pub fn check_trace(inp: &TraceInput<'_>) -> (Vec<Violation>, TraceStats) {
     let mut exec_inc: Vec<usize> = vec![0; inp.n_txs];
     let mut begin_at_head: HashMap<(usize, usize), bool> = HashMap::new();
     let mut registered: std::collections::HashSet<usize> = Default::default();
+    let mut last_failed_validation: HashMap<u32, usize> = HashMap::new();
 
     for rec in inp.trace {
         match &rec.ev {
@@ -255,6 +260,7 @@ pub fn check_trace(inp: &TraceInput<'_>) -> (Vec<Violation>, TraceStats) {
                         last_ok_validation_begin[txid] = begin;
                     } else {
                         st.validation_conflicts += 1;
+                        last_failed_validation.insert(rec.thread, txid);
                         last_ok_validation_begin[txid] = None;
                         if begin_at_head.get(&(txid, incarnation)) == Some(&true) {
                             out.push(v(
@@ -362,10 +368,16 @@ pub fn check_trace(inp: &TraceInput<'_>) -> (Vec<Violation>, TraceStats) {
                         *st.abort_kinds.entry(format!("{kind:?}")).or_insert(0) += 1;
                     }
                 }
-                Event::DepAdd { dep, .. } => {
+                Event::DepAdd { tx, dep, .. } => {
                     if dep.is_some() {
                         st.dep_added += 1;
+                    } else {
+                        st.dep_reoffers_without_blocker += 1;
+                        if last_failed_validation.get(&rec.thread) == Some(&tx) {
+                            st.validation_conflicts_without_dependency += 1;
+                        }
                     }
+                    last_failed_validation.remove(&rec.thread);
                 }
                 Event::DepCleared { tx, by, .. } => {
                     st.dep_cleared_by_remove += 1;
